@@ -526,6 +526,9 @@ func Peers() []wm.NPPeer {
 		{Pod: &wm.Sel{ME: []wm.Req{{Key: "tier", Op: "NotIn", Vals: []string{"db"}}, {Key: "tier", Op: "Exists"}}}},
 		// an empty-valued label is a requirement like any other: the real w2 (app=b, no such key) does not satisfy it
 		{Pod: ml("app", "b", "canary", "")},
+		// a namespace selector also used alone above, here with a pod selector made of negative expressions only
+		{NSSel: ml("team", "q"), Pod: me("role", "DoesNotExist")},
+		{NSSel: &wm.Sel{}, Pod: me("app", "NotIn", "a", "b")},
 		// the same cidr as the other ipBlock peer, with an except list
 		{CIDR: "10.0.0.0/8", Except: []string{"10.1.0.0/16"}},
 	}
